@@ -85,7 +85,7 @@ class TlcResult:
 
 def tlc(module, cfg=None, workers=8, env=None, timeout=600, simulate=None, depth=None,
         seed=None, deque=False, xmx="6g", coverage=False, on_case=None, tag="CASE", extra=None,
-        keep_cases=True, sample=None):
+        keep_cases=True, sample=None, tables=None):
     """Run TLC on spec/<module>.tla with spec/<cfg>.cfg.  CASE lines are parsed (and streamed to
     `on_case` if given)."""
     os.makedirs(WORK, exist_ok=True)
@@ -116,8 +116,12 @@ def tlc(module, cfg=None, workers=8, env=None, timeout=600, simulate=None, depth
     p = subprocess.Popen(cmd, cwd=SPEC, env=e, stdout=subprocess.PIPE, stderr=subprocess.STDOUT,
                          text=True, bufsize=1 << 20)
     prefix = '<<"%s", "' % tag
+    tprefix = '<<"TABLE", "'
     for line in p.stdout:
         line = line.rstrip("\n")
+        if tables is not None and line.startswith(tprefix) and line.endswith('">>'):
+            tables.append(json.loads(json.loads(line[len(tprefix) - 1:-2])))
+            continue
         if line.startswith(prefix) and line.endswith('">>'):
             r.ncases += 1
             if sample is not None:
